@@ -647,6 +647,55 @@ def spaces(tier, variant, seed):
     sp.append(Space("entry_point_variants", list(range(len(VFMT))), vf_cases, vf_one,
                     "gmp_vsnprintf, vsprintf, vasprintf, vfprintf, fprintf, obstack_vprintf, vprintf (stdout captured) must produce exactly what gmp_snprintf produces for the same format and arguments; gmp_vsscanf, vfscanf, fscanf read it back"))
 
+    # ---- runs of standard conversions / literal text of EVERY length through the allocating and the bounded back ends: the pieces MPIR
+    #      hands to the C library are formatted into a buffer that is grown when the piece does not fit, so exact-fit lengths matter ----
+    def al_cases(blk):
+        lo = blk
+        for n in range(lo, lo + 64):
+            for shape in range(4):
+                yield (n, shape)
+
+    def al_one(case, R):
+        n, shape = case
+        e = env()
+        z = e["z"][0]
+        z.set(-(10 ** 20) - 7 if shape != 3 else 5)
+        if shape == 0:
+            fmt, args = b"%*d|%Zd", [c_int(n), c_int(7), c_void_p(z.p)]
+            exp = b"%*d" % (n, 7) + b"|" + str(z.get()).encode()
+        elif shape == 1:
+            fmt, args = b"%Zd%*d|", [c_void_p(z.p), c_int(n), c_int(7)]
+            exp = str(z.get()).encode() + b"%*d" % (n, 7) + b"|"
+        elif shape == 2:
+            fmt, args = b"%Zd|" + b"x" * n + b"|%d", [c_void_p(z.p), c_int(42)]
+            exp = str(z.get()).encode() + b"|" + b"x" * n + b"|42"
+        else:
+            fmt, args = b"%-*s%Zd", [c_int(n), c_char_p(b"ab"), c_void_p(z.p)]
+            exp = b"ab".ljust(n) + b"5"
+        L = len(exp)
+        pp = c_void_p(0)
+        r = S.v_vasprintf(byref(pp), fmt, *args)
+        got = string_at(pp.value) if pp.value else None
+        if r != L or got != exp:
+            R.fail("gmp_vasprintf", "format %r (run of %d): returned %d, strlen %d, expected length %d%s" % (fmt[:30], n, r, len(got) if got is not None else -1, L, "" if got is None or got == exp else "; text differs at byte %d" % next((i for i in range(min(len(got), L)) if got[i] != exp[i]), min(len(got), L))))
+        if pp.value:
+            bs = S.v_block_size(pp.value)
+            if bs != r + 1:
+                R.fail("gmp_vasprintf", "format %r (run of %d): block of %d bytes for a result of length %d" % (fmt[:30], n, bs, r))
+            S.v_free(pp.value, bs if bs != (1 << 64) - 1 else L + 1)
+        buf = e["buf"]
+        ctypes.memset(buf, 0xEE, L + 40)
+        r = S.v_vsnprintf(c_void_p(addressof(buf)), c_size_t(L + 1), fmt, *args)
+        if r != L or buf.raw[:L + 1] != exp + b"\0" or buf.raw[L + 1:L + 9] != b"\xee" * 8:
+            R.fail("gmp_vsnprintf", "format %r (run of %d), size exactly length+1: returned %d / wrong text / wrote beyond" % (fmt[:30], n, r))
+        if lib.alloc_errors() or S.v_check_guards():
+            R.fail("gmp_printf family", "run of %d: %s" % (n, lib.alloc_msg()))
+            S.v_reset_errors()
+        return ("run", shape, n % 64 == 0, n > 512)
+
+    sp.append(Space("standard_run_lengths", list(range(1, 1153, 64)), al_cases, al_one,
+                    "gmp_vasprintf / gmp_vsnprintf: a run of standard conversions or literal text of EVERY length 1..1152 before, after and between MPIR conversions: text, return value, block size == length+1, guard bytes"))
+
     # ---- sscanf reads back what printf wrote ----
     SC = [("%Zd", "d"), ("%Zx", "x"), ("%Zo", "o"), ("%#Zx", "i"), ("%#Zo", "i"), ("%Zd", "i"), ("%ZX", "x")]
     SV = LV + BIG
